@@ -565,3 +565,43 @@ func PredictReencode(kind Kind, b []byte) ([]byte, error) {
 	}
 	return refcbor.Encode(c), nil
 }
+
+// ---------------------------------------------------------------------------
+// Bucket decoders (ProtectedHeader.UnmarshalCBOR / UnprotectedHeader.UnmarshalCBOR)
+
+// WellFormedProtected is the acceptance predicate for a stand-alone protected
+// bucket: one definite byte string that is empty or wraps exactly one map
+// obeying the section 3.1 rules of the protected bucket.
+func WellFormedProtected(b []byte) error {
+	it, err := refcbor.ParseOne(b)
+	if err != nil {
+		return err
+	}
+	if it.Major != refcbor.MBstr || it.Indef {
+		return errors.New("not a definite byte string")
+	}
+	if len(it.Data) == 0 {
+		return nil
+	}
+	m, err := refcbor.ParseOne(it.Data)
+	if err != nil {
+		return fmt.Errorf("content is not exactly one item: %w", err)
+	}
+	if m.Major != refcbor.MMap {
+		return errors.New("content is not a map")
+	}
+	return CheckBucket(m, true, 0)
+}
+
+// WellFormedUnprotected is the acceptance predicate for a stand-alone
+// unprotected bucket.
+func WellFormedUnprotected(b []byte) error {
+	it, err := refcbor.ParseOne(b)
+	if err != nil {
+		return err
+	}
+	if it.Major != refcbor.MMap {
+		return errors.New("not a map")
+	}
+	return CheckBucket(it, false, 0)
+}
